@@ -493,6 +493,33 @@ Example core_run_example :
     Some [EBegin; EBinary 3; EMatched 0 [97; 10]%N; EMatched 2 [120; 0; 10]%N; EFinish 3 (Some 3)].
 Proof. vm_compute. repeat split; reflexivity. Qed.
 
+(* 7. and 9. inside the Core model: Convert(b) — lines holding b are delivered only after binary_data;
+   Quit(b) or Convert(b) — whatever the sink replies, feeding the delivered events to the standard printer
+   (`std_run` = the fold of `std_step`) writes no b *)
+Theorem core_convert_no_nul_before_notification :
+  forall (cfg : SearcherCore.config) (M : SearcherCore.matcher) (r : nat -> SearcherCore.reply) (b : byte),
+    (forall i, r i <> SearcherCore.Fail) ->
+    SearcherCore.c_before cfg = 0 -> SearcherCore.c_after cfg = 0 -> SearcherCore.c_stop_on_nonmatch cfg = false ->
+    SearcherCore.c_binary cfg = SearcherCore.BConvert b ->
+    forall s : bytes, FastPathProofs.find_spec cfg M s ->
+    exists evs, Glue.slice_by_line_run cfg M r s = Glue.RunOk evs /\ guarded b (map LitePlanCore.ev14 evs).
+Proof. exact LitePlanSim.core_convert_guarded_proof. Qed.
+Print Assumptions core_convert_no_nul_before_notification.
+
+Theorem core_standard_output_nul_free :
+  forall (cfg : SearcherCore.config) (M : SearcherCore.matcher) (r : nat -> SearcherCore.reply) (b : byte)
+         (pcfg : std_cfg) (render : event -> bytes),
+    (forall i, r i <> SearcherCore.Fail) ->
+    SearcherCore.c_before cfg = 0 -> SearcherCore.c_after cfg = 0 -> SearcherCore.c_stop_on_nonmatch cfg = false ->
+    SearcherCore.c_binary cfg = SearcherCore.BQuit b \/ SearcherCore.c_binary cfg = SearcherCore.BConvert b ->
+    sc_mode pcfg = LitePlanCore.mode14 (SearcherCore.c_binary cfg) ->
+    render_ok render b -> texts_free pcfg b ->
+    forall s : bytes, FastPathProofs.find_spec cfg M s ->
+    exists evs, Glue.slice_by_line_run cfg M r s = Glue.RunOk evs /\
+      ~ In b (ss_out (std_run pcfg render (map LitePlanCore.ev14 evs) st0)).
+Proof. exact LitePlanSim.core_standard_output_free_proof. Qed.
+Print Assumptions core_standard_output_nul_free.
+
 Check lite_plan_eq_core :
   forall (cfg : SearcherCore.config) (M : SearcherCore.matcher) (needles : list bytes),
     SearcherCore.c_binary cfg = SearcherCore.BNone -> SearcherCore.c_before cfg = 0 ->
